@@ -1,4 +1,5 @@
 import Aurora.Lemmas.Bmt
+import Aurora.Props.C03Conc
 /-!
 # C03 — BMT chunk hash matches its recursive definition
 
@@ -10,7 +11,8 @@ writes — no bound.
 
 What is abstracted: the per-section goroutines and the atomic node toggles are represented by
 the dataflow they compute (`leafs`, `iterUp`); that every interleaving of those goroutines yields
-this dataflow value is the job of the small-step model (see `notes/C03.md`), and
+this dataflow value is proved on the small-step model in `Props/C03Conc.lean` (imported here so
+that `./check C03` builds and audits it: `C03_conc_result`, `C03_conc_hash_correct`, …), and
 `C03_spawned_sections_stable` is the part of that argument which lives at this level (the bytes
 a spawned section worker reads are never written again).
 -/
